@@ -19,6 +19,11 @@ pub struct Step {
     /// the panicking closure holds a guard whose destructor pulls from the iterator while unwinding
     #[serde(default)]
     pub unwind: bool,
+    /// how the items of a chunk are taken out of its iterator: bits 0-1: 0 next, 1 nth(0), 2 take(1).fold, 3 find;
+    /// bit 2: the rest of a partly consumed chunk is discarded through the iterator, too (1 nth(MAX), 2 count(),
+    /// 3 last(), 0 nothing) instead of just dropping the chunk
+    #[serde(default)]
+    pub via: u8,
 }
 
 #[derive(Deserialize, Clone, Debug, Default)]
